@@ -46,6 +46,8 @@ CLASSES = {
         'when': 'dyn', 'get_how_many_elements': 'dyn', 'until_condition': 'dyn'}),
     'Optional': dict(module='structural_fields', bases=['Field'], attrs={
         'prototype_field': 'ref:Field', 'opt_elem_field_name': 'str', 'when': 'dyn'}),
+    'Prototype': dict(module='packet', bases=[], attrs={'template': 'dyn', 'clone': 'meth'},
+                      methsel={'clone': ['packet:Prototype._clone_from_pickle', 'packet:Prototype._clone_from_live_obj']}),
     'Auto': dict(module='descriptor', bases=[], attrs={
         'func': 'dyn', 'iam_enabled_attr_name': 'str', 'real_field_name': 'str', 'descriptor_name': 'str'}),
     'AutoLength': dict(module='descriptor', bases=['Auto'], attrs={'length_of': 'str'}),
